@@ -59,7 +59,7 @@ def stepCrdt (st : State) (toks : List String) : Option (State × String) :=
 def step (st : State) (toks : List String) : Option (State × String) :=
   match toks with
   | t :: _ =>
-    if t.startsWith "n" then
+    if t.startsWith "n" || t == "tag" then
       (Driver.ClusterOps.step st.cluster toks).map fun (c, o) => ({ st with cluster := c }, o)
     else stepCrdt st toks
   | [] => none
